@@ -1,10 +1,594 @@
-"""Verus side (placeholder until the weaver lands)."""
-from common import Undecided
+"""Verus side.
+
+A Verus unit (`"tool": "verus"` in unit.json) names a *template* (`"template": "x.vrs"`).  The template is Verus
+text (spec functions, lemmas, `impl T {` wrappers, assumed library specs) in which directives pull the REAL items
+out of /repo's current working tree on every run:
+
+  //@include <relative path>                 textual include of another template fragment
+  //@item <repo file> :: <item spec> [+Structural] [as-is]
+                                             copy a struct / enum / const / type / fn verbatim (mechanical rewrites only)
+  //@fn <repo file> :: <Type::method | fn name>
+      //@ret <name>                          `-> T` becomes `-> (name: T)`
+      //@attr <text>                         extra attribute line(s) in front of the fn
+      //@spec                                following lines (requires/ensures/decreases) go between signature and body
+      //@entry                               following lines are inserted at the start of the body
+      //@loop <n>                            following lines (invariant/ensures/decreases) go after the n-th loop header
+      //@closure "<verbatim closure>" [#k]   the next line is a closure header `|x: T| -> (r: R) ensures ...`; the
+                                             closure's parameter list is replaced by it and its body, verbatim, is
+                                             wrapped in braces (W11: ghost contract on a closure; Verus proves it)
+      //@before "<verbatim code>" [#k]       following lines go in front of the line holding the k-th occurrence
+      //@after "<verbatim code>" [#k]        following lines go after the line holding the k-th occurrence
+  //@endfn
+  //@id <obligation id>                      (inside spec/loop text) names the next clause line
+
+The function body is copied from /repo; nothing in it is rewritten except the mechanical operations W0-W8 below,
+each application of which is counted and reported in the evidence.  A directive whose anchor is gone raises
+`Undecided` (exit 2).  Verus' diagnostics are mapped back through the line map to named obligations.
+"""
+import json
+import os
+import re
+import time
+
+from common import REPO, REPLAYS, VERUS_DIR, NCPU, Lock, Undecided, sh
+from rsx import Lost, Src, mask, match_brace
+
+VERUS_TOOLCHAIN = '1.98.1-x86_64-unknown-linux-gnu'
+
+
+# ------------------------------------------------------------------------------------------------
+# setup: dependency rlibs compiled with Verus' toolchain
+def _bytes_src():
+    base = os.path.expanduser('~/.cargo/registry/src')
+    for d in sorted(os.listdir(base)):
+        for c in sorted(os.listdir(os.path.join(base, d))):
+            if re.match(r'bytes-1\.\d+\.\d+$', c):
+                lock = open(os.path.join(REPO, 'Cargo.lock')).read()
+                ver = c.split('-', 1)[1]
+                if f'name = "bytes"\nversion = "{ver}"' in lock:
+                    return os.path.join(base, d, c, 'src', 'lib.rs')
+    raise Undecided('bytes crate source not found in the cargo registry')
+
+
+def setup():
+    os.makedirs(VERUS_DIR, exist_ok=True)
+    out = os.path.join(VERUS_DIR, 'libbytes.rlib')
+    if os.path.exists(out):
+        return out
+    with Lock('verus-setup'):
+        if os.path.exists(out):
+            return out
+        rc, o, wall = sh(['rustc', '--edition', '2021', '--crate-type', 'rlib', '--crate-name', 'bytes',
+                          '--cfg', 'feature="std"', '--cfg', 'feature="default"', '-A', 'warnings', '-o', out + '.tmp',
+                          _bytes_src()], env={'RUSTUP_TOOLCHAIN': VERUS_TOOLCHAIN}, timeout=600)
+        if rc != 0:
+            raise Undecided('cannot build bytes rlib for Verus: ' + o[-2000:])
+        os.replace(out + '.tmp', out)
+        print(f'[setup] verus: bytes rlib built in {wall:.1f}s')
+    return out
+
+
+# ------------------------------------------------------------------------------------------------
+# mechanical rewrites
+class Rewrites:
+    def __init__(self):
+        self.count = {}
+
+    def hit(self, k, n=1):
+        if n:
+            self.count[k] = self.count.get(k, 0) + n
+
+
+def _strip_docs(text, rw):
+    out = []
+    n = 0
+    for l in text.splitlines(keepends=True):
+        if l.lstrip().startswith('///') or l.lstrip().startswith('//!'):
+            n += 1
+            continue
+        out.append(l)
+    rw.hit('W0.doc_comments_dropped', n)
+    return ''.join(out)
+
+
+def _rewrite_derives(text, rw, add_structural):
+    def fix(m):
+        names = [x.strip() for x in m.group(1).replace('\n', ' ').split(',') if x.strip()]
+        keep = []
+        for x in names:
+            if x in ('Debug', 'Error', 'thiserror::Error', 'Deref', 'DerefMut'):
+                rw.hit('W4.derive_dropped:' + x)
+            else:
+                keep.append(x)
+        if add_structural and 'PartialEq' in keep and 'Eq' in keep and 'Structural' not in keep:
+            keep.append('Structural')
+            rw.hit('W10.structural_added')
+        return '#[derive(' + ', '.join(keep) + ')]' if keep else ''
+    text = re.sub(r'#\[derive\(([^\]]*?)\)\]', fix, text, flags=re.S)
+    text, n = re.subn(r'(?m)^[ \t]*#\[(error|deref|deref_mut)(\([^\n]*\))?\]\n', '', text)
+    rw.hit('W4.attr_dropped', n)
+    return text
+
+
+def _balanced_call_end(m, i):
+    """i at '(' -> index after matching ')'"""
+    return match_brace(m, i, '(', ')') + 1
+
+
+def _rewrite_body(text, rw):
+    # W7: drop tracing / qevent macro statements
+    while True:
+        m = mask(text)
+        mm = re.search(r'(?m)^[ \t]*(tracing::\w+!|qevent::event!|qevent::span!)\s*\(', m)
+        if not mm:
+            break
+        e = _balanced_call_end(m, m.index('(', mm.start()))
+        while e < len(m) and m[e] in ' \t':
+            e += 1
+        if e < len(m) and m[e] == ';':
+            e += 1
+        if e < len(m) and m[e] == '\n':
+            e += 1
+        text = text[:mm.start()] + text[e:]
+        rw.hit('W7.log_macro_statement_dropped')
+    # W8: debug_assert!(c [, msg..]) -> assert(c)   (strengthens: must be provable)
+    while True:
+        m = mask(text)
+        mm = re.search(r'\bdebug_assert!\s*\(', m)
+        if not mm:
+            break
+        o = m.index('(', mm.start())
+        e = match_brace(m, o, '(', ')')
+        inner_m = m[o + 1:e]
+        # split at first top-level comma
+        depth = 0
+        cut = None
+        for k, ch in enumerate(inner_m):
+            if ch in '([{':
+                depth += 1
+            elif ch in ')]}':
+                depth -= 1
+            elif ch == ',' and depth == 0:
+                cut = k
+                break
+        cond = text[o + 1:e] if cut is None else text[o + 1:o + 1 + cut]
+        text = text[:mm.start()] + 'assert(' + cond.strip() + ')' + text[e + 1:]
+        rw.hit('W8.debug_assert_to_proof_obligation')
+    # W5: match arm `=> _ = expr,`  ->  `=> { let _ = expr; }`
+    def w5(mm):
+        rw.hit('W5.destructuring_assignment_arm')
+        return f'=> {{ let _ = {mm.group(1)}; }}'
+    text = re.sub(r'=>\s*_\s*=\s*([^,\n]+),', w5, text)
+    # W5b: statement `_ = expr;` -> `let _ = expr;`
+    text, n = re.subn(r'(?m)^([ \t]*)_\s*=\s*', r'\1let _ = ', text)
+    rw.hit('W5.underscore_assignment_stmt', n)
+    # W6: `X.drain(..n)` whose iterator is dropped at once -> trusted wrapper with std's documented effect
+    def w6(mm):
+        rw.hit('W6.drain_front_stmt')
+        return f'{mm.group(1)}vd_drain_front(&mut {mm.group(2)}, {mm.group(3)});'
+    text = re.sub(r'(?m)^([ \t]*)let _ = ([\w.]+)\.drain\(\.\.([^)]+)\);', w6, text)
+    return text
+
+
+def _weave_fn(src, spec, body_dir, rw, idmap_sink):
+    """src: Src of repo file; body_dir: dict of directive lists. returns woven text (list of (line, tag))"""
+    d = src.find(spec)
+    text = src.src[d['start']:d['end']]
+    text = _strip_docs(text, rw)
+    m = mask(text)
+    # locate signature/body
+    fnk = re.search(r'\bfn\s+\w+', m)
+    if not fnk:
+        raise Undecided(f'no fn keyword in {spec}')
+    par = m.index('(', fnk.end() - 1) if '(' in m[fnk.end() - 1:] else None
+    # generics may precede '(' ; find first '(' at angle depth 0
+    i = fnk.end()
+    ang = 0
+    while i < len(m):
+        if m[i] == '<':
+            ang += 1
+        elif m[i] == '>' and m[i - 1] != '-':
+            ang -= 1
+        elif m[i] == '(' and ang == 0:
+            break
+        i += 1
+    pclose = match_brace(m, i, '(', ')')
+    # body open: first '{' at depth 0 after pclose
+    j = pclose + 1
+    depth = 0
+    while j < len(m):
+        if m[j] in '([':
+            depth += 1
+        elif m[j] in ')]':
+            depth -= 1
+        elif m[j] == '{' and depth == 0:
+            break
+        j += 1
+    bopen = j
+    bclose = match_brace(m, bopen)
+    sig = text[:bopen].rstrip()
+    body = text[bopen:bclose + 1]
+    # return name
+    ret = body_dir.get('ret')
+    if ret:
+        sm = mask(sig)
+        k = sm.find('->', pclose)
+        if k >= 0:
+            w = re.search(r'\bwhere\b', sm[k:])
+            tend = k + w.start() if w else len(sig)
+            ty = sig[k + 2:tend].strip()
+            sig = sig[:k] + f'-> ({ret}: {ty})' + ((' ' + sig[tend:]) if w else '')
+    sig, nvis = re.subn(r'(?m)^([ \t]*)pub(\([^)]*\))?\s+((?:const\s+|async\s+|unsafe\s+)*fn\b)', r'\1\3', sig, count=1)
+    rw.hit('W12.visibility_dropped', nvis)
+    # body insertions (work on body text with masks; apply bottom-up)
+    bm = mask(body)
+    inserts = []  # (pos, text)
+    if body_dir.get('entry'):
+        inserts.append((1, '\n' + ''.join(body_dir['entry'])))
+    # loops
+    loop_pos = []
+    for lm in re.finditer(r'\b(loop|while|for)\b', bm):
+        # body '{' of this loop
+        k = lm.end()
+        dep = 0
+        while k < len(bm):
+            if bm[k] in '([':
+                dep += 1
+            elif bm[k] in ')]':
+                dep -= 1
+            elif bm[k] == '{' and dep == 0:
+                break
+            k += 1
+        loop_pos.append(k)
+    for n, lines in body_dir.get('loops', {}).items():
+        if n < 1 or n > len(loop_pos):
+            raise Undecided(f'lost anchor: {spec} has {len(loop_pos)} loops, sidecar wants loop {n}')
+        inserts.append((loop_pos[n - 1], '\n' + ''.join(lines)))
+    for kind in ('before', 'after'):
+        for (frag, occ, lines) in body_dir.get(kind, []):
+            pos = -1
+            start = 0
+            for _ in range(occ):
+                pos = body.find(frag, start)
+                if pos < 0:
+                    break
+                start = pos + 1
+            if pos < 0:
+                raise Undecided(f'lost anchor: {spec}: `{frag}` #{occ} not found')
+            if kind == 'before':
+                ls = body.rfind('\n', 0, pos) + 1
+                inserts.append((ls, ''.join(lines)))
+            else:
+                le = body.find('\n', pos)
+                le = len(body) if le < 0 else le + 1
+                inserts.append((le, ''.join(lines)))
+    # closures: replace `|params| expr` by `<header> { expr }`  (positions computed on the un-inserted body)
+    repl = []
+    for (frag, occ, lines) in body_dir.get('closure', []):
+        pos, start = -1, 0
+        for _ in range(occ):
+            pos = body.find(frag, start)
+            if pos < 0:
+                break
+            start = pos + 1
+        if pos < 0:
+            raise Undecided(f'lost anchor: {spec}: closure `{frag}` #{occ} not found')
+        mc = re.match(r'\|([^|]*)\|\s*(.*)$', frag, re.S)
+        hdr = ' '.join(x.strip() for x in lines if x.strip())
+        mh = re.match(r'\|([^|]*)\|', hdr)
+        if not mc or not mh:
+            raise Undecided(f'bad closure directive for {spec}')
+        names = lambda ps: [re.split(r'\s*:', x.strip())[0] for x in ps.split(',') if x.strip()]
+        if names(mc.group(1)) != names(mh.group(1)):
+            raise Undecided(f'closure header renames parameters in {spec}')
+        repl.append((pos, pos + len(frag), hdr + ' { ' + mc.group(2) + ' }'))
+        rw.hit('W11.closure_contract')
+    edits = [(p, p, t) for p, t in inserts] + repl
+    for a, b, t in sorted(edits, key=lambda x: (-x[0], -x[1])):
+        body = body[:a] + t + body[b:]
+    body = _rewrite_body(body, rw)
+    attr = ''.join(body_dir.get('attr', []))
+    spec_txt = ''.join(body_dir.get('spec', []))
+    return attr + sig + '\n' + spec_txt + body + '\n'
+
+
+def weave(unit):
+    """-> (text, meta) ; meta: idlines {lineno: id}, fnlines [(start,end,name)], rewrites, extracted"""
+    rw = Rewrites()
+    tpath = os.path.join(unit['dir'], unit['template'])
+    srcs = {}
+    extracted = []
+
+    def get_src(rel):
+        if rel not in srcs:
+            p = os.path.join(REPO, rel)
+            if not os.path.exists(p):
+                raise Undecided(f'lost anchor: {rel} no longer exists')
+            srcs[rel] = Src(p)
+        return srcs[rel]
+
+    def read_lines(path):
+        out = []
+        for line in open(path).read().splitlines(keepends=True):
+            mm = re.match(r'\s*//@include\s+(\S+)', line)
+            if mm:
+                out += read_lines(os.path.join(os.path.dirname(path), mm.group(1)))
+            else:
+                out.append(line)
+        return out
+
+    lines = read_lines(tpath)
+    out = []
+    i = 0
+    try:
+        while i < len(lines):
+            line = lines[i]
+            s = line.strip()
+            mi = re.match(r'//@item\s+(\S+)\s*::\s*(.+?)(\s+\+Structural)?\s*$', s)
+            mf = re.match(r'//@fn\s+(\S+)\s*::\s*(.+?)\s*$', s)
+            if mi:
+                src = get_src(mi.group(1))
+                t = src.text(mi.group(2))
+                t = _strip_docs(t, rw)
+                t = _rewrite_derives(t, rw, bool(mi.group(3)))
+                t, nvis = re.subn(r'(?m)^([ \t]*)pub(\([^)]*\))?\s+(struct|enum|const|type|fn|static)\b', r'\1\3', t, count=1)
+                rw.hit('W12.visibility_dropped', nvis)
+                t = _rewrite_body(t, rw)
+                extracted.append(f'{mi.group(1)}::{mi.group(2)}')
+                out.append(t + '\n')
+                i += 1
+            elif mf:
+                rel, spec = mf.group(1), mf.group(2)
+                bd = {'loops': {}, 'before': [], 'after': [], 'closure': []}
+                cur = None
+                i += 1
+                while i < len(lines) and lines[i].strip() != '//@endfn':
+                    l = lines[i]
+                    ls = l.strip()
+                    md = re.match(r'//@(\w+)\s*(.*)$', ls)
+                    if md and md.group(1) != 'id':
+                        k, arg = md.group(1), md.group(2).strip()
+                        if k == 'ret':
+                            bd['ret'] = arg
+                            cur = None
+                        elif k in ('spec', 'entry', 'attr'):
+                            cur = bd.setdefault(k, [])
+                        elif k == 'loop':
+                            cur = bd['loops'].setdefault(int(arg), [])
+                        elif k in ('before', 'after', 'closure'):
+                            ma = re.match(r'"(.*)"\s*(?:#(\d+))?$', arg)
+                            if not ma:
+                                raise Undecided(f'bad directive: {ls}')
+                            cur = []
+                            bd[k].append((ma.group(1), int(ma.group(2) or 1), cur))
+                        else:
+                            raise Undecided(f'unknown directive {ls}')
+                    elif cur is not None:
+                        cur.append(l)
+                    i += 1
+                if i >= len(lines):
+                    raise Undecided(f'unterminated //@fn {spec}')
+                i += 1
+                woven = _weave_fn(get_src(rel), spec, bd, rw, None)
+                extracted.append(f'{rel}::{spec}')
+                out.append(f'//@@fn-begin {rel}::{spec}\n')
+                out.append(woven)
+                out.append(f'//@@fn-end\n')
+            else:
+                out.append(line)
+                i += 1
+    except Lost as e:
+        raise Undecided(f'lost anchor: {e}')
+    text = ''.join(out)
+    # ids / function line map
+    idlines, fnlines, cur_fn, pending = {}, [], None, None
+    final = []
+    for l in text.splitlines():
+        s = l.strip()
+        if s.startswith('//@@fn-begin'):
+            cur_fn = [len(final) + 1, None, s.split(' ', 1)[1]]
+            continue
+        if s == '//@@fn-end':
+            cur_fn[1] = len(final)
+            fnlines.append(tuple(cur_fn))
+            cur_fn = None
+            continue
+        mid = re.match(r'//@id\s+(\S+)', s)
+        if mid:
+            pending = mid.group(1)
+            continue
+        final.append(l)
+        if pending and s and not s.startswith('//'):
+            idlines[len(final)] = pending
+            pending = None
+    return '\n'.join(final) + '\n', dict(idlines=idlines, fnlines=fnlines, rewrites=rw.count, extracted=extracted)
+
+
+LEDGER_PAT = re.compile(r'\b(assume\s*\(|admit\s*\(|external_body|assume_specification|external_type_specification|'
+                        r'#\[verifier::external\]|axiom)')
+
+
+def ledger(text):
+    """every trusted construct in the woven file, by kind and name."""
+    led = []
+    for n, l in enumerate(text.splitlines(), 1):
+        s = l.strip()
+        if s.startswith('//'):
+            continue
+        for m in LEDGER_PAT.finditer(l):
+            name = ''
+            mm = re.search(r'assume_specification\s*(?:<[^\[]*>)?\s*\[\s*([^\]]+?)\s*\]', l)
+            if mm:
+                name = mm.group(1)
+            led.append(f"{m.group(1).strip('( ')}:{name or s[:70]}")
+    return sorted(set(led))
+
+
+def parse_errors(out, path):
+    """Verus human-readable diagnostics -> list of dict(msg, line (primary), notes:[(line,label)])"""
+    errs = []
+    cur = None
+    base = os.path.basename(path)
+    for l in out.splitlines():
+        m = re.match(r'^error(?:\[\w+\])?: (.*)$', l)
+        if m:
+            cur = dict(msg=m.group(1), line=None, notes=[], raw=[l])
+            errs.append(cur)
+            continue
+        if cur is not None:
+            cur['raw'].append(l)
+            m = re.match(r'^\s*(?:-->|:::)\s+(.*?):(\d+):(\d+)', l)
+            if m and os.path.basename(m.group(1)) == base:
+                if cur['line'] is None:
+                    cur['line'] = int(m.group(2))
+                else:
+                    cur['notes'].append(int(m.group(2)))
+            m = re.match(r'^\s*(\d+)\s*\|', l)
+            if m:
+                cur.setdefault('shown', []).append(int(m.group(1)))
+    return [e for e in errs if not e['msg'].startswith('aborting due to') and 'previous error' not in e['msg']]
+
+
+def run_verus(path, extra=None, timeout=1800, rlimit=None, seed=None):
+    cmd = ['verus', path, '--crate-type', 'lib', '--extern', f'bytes={setup()}', '--multiple-errors', '20',
+           '--output-json', '--time', '--triggers-mode', 'silent', '--num-threads', str(min(NCPU, 8))]
+    if rlimit:
+        cmd += ['--rlimit', str(rlimit)]
+    if seed:
+        cmd += ['--smt-option', f'smt.random_seed={seed}', '--smt-option', f'sat.random_seed={seed}']
+    cmd += extra or []
+    rc, out, wall = sh(cmd, cwd=os.path.dirname(path), timeout=timeout)
+    js = None
+    k = out.find('{\n')
+    # the JSON blob is printed on stdout; stderr diagnostics are interleaved -- take the last balanced object
+    for mm in re.finditer(r'(?m)^\{$', out):
+        try:
+            js = json.loads(out[mm.start():out.index('\n}\n', mm.start()) + 2])
+        except Exception:
+            pass
+    return rc, out, wall, js, ' '.join(cmd)
 
 
 def run_unit(prop, unit, tier, seed, log):
-    raise Undecided("verus runner not built yet")
+    os.makedirs(VERUS_DIR, exist_ok=True)
+    t0 = time.time()
+    text, meta = weave(unit)
+    path = os.path.join(VERUS_DIR, f"{unit['unit']}.rs")
+    open(path, 'w').write(text)
+    rc, out, wall, js, cmd = run_verus(path, rlimit=unit.get('rlimit'), seed=seed if tier == 'thorough' else None)
+    vr = (js or {}).get('verification-results', {})
+    verified, nerr = vr.get('verified'), vr.get('errors')
+    errs = parse_errors(out, path)
+    m = dict(unit=unit['unit'], cmd=cmd, wall=wall, verified=verified, errors=nerr, rewrites=meta['rewrites'],
+             extracted=meta['extracted'], ledger=ledger(text),
+             smt_time_ms=((js or {}).get('times-ms') or {}).get('smt', {}).get('total') if js else None)
+    if js is None or verified is None or not vr.get('encountered-vir-error') is False and vr.get('encountered-vir-error'):
+        log(out[-6000:])
+        raise Undecided(f"verus could not process unit {unit['unit']} (the extracted code left Verus' subset, or a "
+                        f"type error in a contract): see log")
+    if rc != 0 and not errs and nerr == 0:
+        log(out[-6000:])
+        raise Undecided(f"verus failed without verification diagnostics on {unit['unit']}")
+    # vacuity canary: a deliberately false lemma in the unit must be rejected
+    if unit.get('canary'):
+        c_rc, c_out, _, c_js, _ = run_verus(_canary_file(path, text, unit['canary']))
+        ok = c_js and c_js.get('verification-results', {}).get('errors', 0) >= 1
+        m['vacuity_canary'] = 'rejected' if ok else 'ACCEPTED'
+        if not ok:
+            raise Undecided(f"vacuity guard: the false canary lemma of {unit['unit']} was not rejected")
+    # ---- obligations --------------------------------------------------------------------------
+    ids = meta['idlines']           # line -> id
+    fnl = meta['fnlines']
+    results = []
+    failed_ids, failed_fns, other = set(), {}, []
+    rl_hit = False
+    for e in errs:
+        if 'rlimit' in e['msg'] or 'resource limit' in e['msg'].lower() or 'timed out' in e['msg'].lower():
+            rl_hit = True
+        lines = [x for x in [e['line']] + e['notes'] + e.get('shown', []) if x]
+        hit = [ids[x] for x in lines if x in ids]
+        fn = None
+        for (a, b, name) in fnl:
+            if any(a <= x <= b for x in lines):
+                fn = name
+        if hit:
+            failed_ids.update(hit)
+        if fn:
+            failed_fns.setdefault(fn, []).append(e['msg'])
+        if not hit and not fn:
+            other.append(e['msg'])
+    if rl_hit:
+        log(out[-4000:])
+        raise Undecided(f"verus hit its resource limit on {unit['unit']} (tool limit, not a verdict)")
+    base = dict(unit=unit['unit'], harness=unit['unit'], backend='verus/z3', bounded=False, bound=None,
+                time=round((m['smt_time_ms'] or 0) / 1000.0, 3))
+    my_ids = sorted({v for v in ids.values() if v.startswith(prop + '.')})
+    if not my_ids:
+        raise Undecided(f"vacuity guard: unit {unit['unit']} carries no obligation id of {prop}")
+    detail = {}
+    for e in errs:
+        for x in [e['line']] + e['notes'] + e.get('shown', []):
+            if x in ids:
+                detail.setdefault(ids[x], []).append(e['msg'])
+    for oid in my_ids:
+        st = 'failed' if oid in failed_ids else 'discharged'
+        results.append(dict(base, id=oid, cls='support' if '.sup.' in oid else 'property', status=st,
+                            detail='; '.join(detail.get(oid, [])) or None))
+    # one body obligation per extracted function: everything Verus checks in it that has no id of its own
+    # (call preconditions, overflow, unlabelled invariants, termination)
+    for (a, b, name) in fnl:
+        short = name.split('::', 1)[1] if '::' in name else name
+        oid = f"{prop}.{unit['unit']}.{short.replace('::', '.')}.body"
+        msgs = failed_fns.get(name, [])
+        # a function whose only failures are labelled clauses still has its body obligation open: the labelled
+        # failure already reports it
+        unl = [x for x in msgs]
+        named_in_fn = any(a <= ln <= b for ln in ids if ids[ln] in failed_ids)
+        st = 'failed' if (unl and not named_in_fn) else ('discharged' if not unl else 'failed-with-named')
+        if st == 'failed-with-named':
+            st = 'discharged-modulo-named'
+        results.append(dict(base, id=oid, cls='support', status='failed' if st == 'failed' else 'discharged',
+                            detail='; '.join(unl) or None))
+    if other:
+        results.append(dict(base, id=f"{prop}.{unit['unit']}.lemmas", cls='support', status='failed',
+                            detail='; '.join(other)))
+    m['errors_text'] = ['\n'.join(e['raw'][:25]) for e in errs][:10]
+    m['path'] = path
+    m['obligation_lines'] = len(ids)
+    if verified == 0:
+        raise Undecided(f"vacuity guard: verus verified zero functions in {unit['unit']}")
+    return results, m
+
+
+def _canary_file(path, text, canary):
+    p = path[:-3] + '_canary.rs'
+    k = text.rstrip().rfind('}')  # closing of verus!{ }
+    t = text.rstrip()
+    # insert the false lemma just before the final `} // verus!`
+    idx = t.rfind('} // verus!')
+    if idx < 0:
+        idx = k
+    open(p, 'w').write(t[:idx] + '\n' + canary + '\n' + t[idx:] + '\n')
+    return p
 
 
 def replay(prop, r, units):
-    raise Undecided("n/a")
+    """no model from Verus: the replay file names the failed obligation and carries the verifier's output.
+    A unit may name a paired native driver (`"driver"`) that searches a concrete failing input on the real crate."""
+    os.makedirs(REPLAYS, exist_ok=True)
+    u = [x for x in units if x['unit'] == r['unit']][0]
+    path = os.path.join(REPLAYS, f"{prop}-{r['unit']}.txt")
+    vpath = os.path.join(VERUS_DIR, f"{u['unit']}.rs")
+    rc, out, wall, js, cmd = run_verus(vpath)
+    mj = re.search(r'(?m)^\{$', out)
+    diag = out[:mj.start()] if mj else out
+    txt = [f"# property {prop}: obligation {r['id']} of Verus unit {u['unit']} is no longer discharged",
+           f"# command: {cmd}", f"# detail: {r.get('detail')}", '', "## verifier diagnostics", diag[-12000:]]
+    concrete = False
+    if u.get('driver'):
+        import driver_run
+        found, dtxt = driver_run.search(u, prop)
+        txt += ['', '## paired native search for a failing input on the real crate', dtxt]
+        concrete = found
+    open(path, 'w').write('\n'.join(txt) + '\n')
+    return path, concrete
